@@ -76,7 +76,7 @@ CLAIMED = {
                      '(points, derivatives scaled by a^-k, insertion, sampling grids, tessellation), for GEOMDL_CACHE_SIZE in {unset,1,16,1024} and for num_procs in {1,2,4}.',
                 note=_B_NOTE + ' Schedules of worker processes are NOT explored: the claim rests on the order-preserving contract of multiprocessing.Pool.map (A4); real pools are run once natively as a sanity run.'),
     'C02': dict(category='other', technique='contracts on the derivative algorithms; per-shape exhaustive symbolic execution (symx) against the formal derivative of the spec position function',
-                text='Curve.derivatives / Surface.derivatives (both evaluator families, rational too, orders up to degree+2, entries k+l <= order) equal the formal derivatives d^k/du^k d^l/dv^l of the '
+                text='Engine A, every degree / order / size: curve_deriv_cpts obeys the derivative-control-point recurrence; basis_function_ders is index-safe with positive divisors and the stated shape; CurveEvaluator.derivatives returns zero rows above the degree and row k = sum_j ders[k][j] * P[span-p+j]. Engine B: Curve.derivatives / Surface.derivatives (both evaluator families, rational too, orders up to degree+2, entries k+l <= order) equal the formal derivatives d^k/du^k d^l/dv^l of the '
                      'spec shape in QQ(knots, u, v, control points, weights); basis_function_ders(_one), derivative control points, hodograph constructors, tangent/normal (unit length and orthogonality modulo s*s = x).',
                 note=_B_NOTE + ' A4: math.sqrt by contract.'),
     'C11': dict(category='other', technique='contracts on fitting.*; per-shape exhaustive symbolic execution (symx) with the real LU solve in exact arithmetic',
